@@ -51,6 +51,11 @@ def plan(tier, seed):
             for a, b in E.chunks(4 ** n, step):
                 for kind in KINDS:
                     shards.append((kind, n, mt, a, b))
+    # two-dimensional samples, batches handed over in Fortran order / as a transposed view
+    for kind in KINDS:
+        for lay in ("F", "T"):
+            for a, b in E.chunks(81, 27):
+                shards.append(("2d", kind, lay, a, b))
     return shards
 
 
@@ -59,7 +64,32 @@ def warm():
     warm_metrics()
 
 
+def programs2d(shard, seed):
+    _, kind, lay, a, b = shard
+    pts = E.lattice("2d", seed)
+    for si in range(a, b):
+        seq = E.sequence_at(9, 3, si * 9)
+        X = [list(pts[i]) for i in seq]
+        pool = [X[0], X[-1], [0.5, 1.5], [40.0, 50.0], [2.0, 0.0], [1.0, 1.0]]
+        lab = [0, 1, 0]
+        base = {"model": kind, "mode": "features", "X": X, "metric": "euclidean", "labels": lab, "pool": pool,
+                "layout": lay, "two_call_histories": False}
+        if kind == "SemiSupervisedOPF":
+            base["X"] = X + [[0.5, 0.5]]
+            base["n_unlabeled"] = 1
+        elif kind == "KNNSupervisedOPF":
+            base["max_k"] = 2
+            base["val"] = {"X": X, "labels": lab}
+        elif kind == "UnsupervisedOPF":
+            base["min_k"] = 1
+            base["max_k"] = 2
+        yield base
+
+
 def programs(shard, seed):
+    if shard[0] == "2d":
+        yield from programs2d(shard, seed)
+        return
     kind, n, metric, a, b = shard
     pts = E.lattice("1d", seed)
     for si in range(a, b):
@@ -133,7 +163,11 @@ def digest(m):
 
 
 def predict(m, prog, batch):
-    out = m.predict(np.array([prog["pool"][i] for i in batch], dtype=float))
+    Xb = np.array([prog["pool"][i] for i in batch], dtype=float)
+    if prog.get("layout"):
+        from mc import layout as LY
+        Xb = LY.apply(Xb, prog["layout"])
+    out = m.predict(Xb)
     if prog["model"] == "UnsupervisedOPF":
         return [(int(a), int(b)) for a, b in zip(out[0], out[1])]
     return [(int(a), 0) for a in out]
@@ -161,6 +195,44 @@ def run_case(prog, res=None, only=None):
         if digest(m) != d0:
             return viol(prog, [[i]], "predicting sample %s alone changed the model's "
                         "prediction-relevant state" % prog["pool"][i], "predict changes model state")
+    # exception safety: an earlier predict call interrupted at each of its metric calls must not
+    # influence later calls on the same model
+    if only is None or only == "crash":
+        from mc.faults import FaultyFn, InjectedFault
+        orig_fn = m.distance_fn
+        cnt = FaultyFn(orig_fn)
+        m.distance_fn = cnt
+        try:
+            predict(m, prog, [2, 0])
+        except Exception:
+            pass
+        m.distance_fn = orig_fn
+        for k in range(1, cnt.calls + 1):
+            m.distance_fn = FaultyFn(orig_fn, k)
+            try:
+                predict(m, prog, [2, 0])
+            except InjectedFault:
+                pass
+            except Exception:
+                pass
+            m.distance_fn = orig_fn
+            for batch in ([0], [1, 2], [3]):
+                try:
+                    got = predict(m, prog, batch)
+                except Horizon:
+                    raise
+                except Exception as ex:
+                    return viol(prog, "crash", "predict raised %r after an earlier interrupted call" % (ex,),
+                                "predict raised after an interrupted call")
+                if res is not None:
+                    res.transitions += 2
+                for qi, g in zip(batch, got):
+                    if g != ref[qi]:
+                        return viol(prog, "crash", "sample %s receives %s normally but %s in the first call after "
+                                    "a predict call that was interrupted at its metric call %d"
+                                    % (prog["pool"][qi], ref[qi], g, k), "prediction depends on an earlier interrupted call")
+        if only == "crash":
+            return None
     if only is not None:
         histories = [only]
     else:
